@@ -103,6 +103,7 @@ inline bool expandFormat(State &S, const CallBase *CB, const std::string &fmt, u
       }
       const Region &R = S.regions[sv.reg];
       i128 olo, ohi; offsetBounds(S, sv, olo, ohi);
+      if (R.traced) markRead(S, sv.reg, olo, ohi + hi);     // formatted into the destination: counted as a use
       std::vector<FmtAlt> out;
       for (i128 L = lo; L <= hi; L++)
         for (auto a : alts) {
